@@ -423,13 +423,22 @@ static uint64_t scalar_reads(const S &a, const S &b)
 // ------------------------------------------------------------------------------------------------ system
 enum MKind {
     M_CONSTRUCT, M_COPY_CTOR, M_MOVE_CTOR, M_DTOR, M_ASSIGN, M_ASSIGN_SELF, M_MOVE_ASSIGN, M_SET_CSTR, M_ASSIGN_CSTR, M_SET_BUFFER,
-    M_APPEND, M_APPEND_SELF, M_APPEND_CSTR, M_APPEND_CHAR, M_REPLACE_SELF, M_SUBSTR_SELF, M_TRIM_SELF, M_UPPER_SELF, M_CLEAR, M_SET_STRING, M_SET_MOVE
+    M_APPEND, M_APPEND_SELF, M_APPEND_CSTR, M_APPEND_CHAR, M_REPLACE_SELF, M_SUBSTR_SELF, M_TRIM_SELF, M_UPPER_SELF, M_CLEAR, M_SET_STRING, M_SET_MOVE,
+    // the argument is a raw pointer / view into the target's own storage: it must be consumed as a value
+    M_ASSIGN_OWN_CSTR, M_SET_OWN_TAIL, M_ASSIGN_OWN_HEAD_VIEW, M_SET_OWN_TAIL_VIEW, M_APPEND_OWN_CSTR, M_SET_OWN_PTRLEN
 };
 struct MOp {
     MKind k;
     int i, j;
     size_t n;
 };
+
+// a cut position inside UTF-8 text, moved forward / backward to a character boundary
+static size_t own_cut(const std::string &m, size_t k)
+{
+    while (k < m.size() && (static_cast<unsigned char>(m[k]) & 0xC0) == 0x80) ++k;
+    return k;
+}
 
 struct StrSys : World {
     std::vector<MOp> ops;
@@ -465,6 +474,12 @@ struct StrSys : World {
             ops.push_back(MOp{M_TRIM_SELF, i, i, 0});
             ops.push_back(MOp{M_UPPER_SELF, i, i, 0});
             ops.push_back(MOp{M_CLEAR, i, -1, 0});
+            ops.push_back(MOp{M_ASSIGN_OWN_CSTR, i, i, 0});
+            ops.push_back(MOp{M_SET_OWN_TAIL, i, i, 0});
+            ops.push_back(MOp{M_ASSIGN_OWN_HEAD_VIEW, i, i, 0});
+            ops.push_back(MOp{M_SET_OWN_TAIL_VIEW, i, i, 0});
+            ops.push_back(MOp{M_APPEND_OWN_CSTR, i, i, 0});
+            ops.push_back(MOp{M_SET_OWN_PTRLEN, i, i, 0});
         }
         vf::tracking_begin();
     }
@@ -497,6 +512,7 @@ struct StrSys : World {
         case M_SET_STRING:
         case M_SET_MOVE: return ai && aj;
         case M_APPEND: return ai && aj && model[o.i].size() + model[o.j].size() <= cap;
+        case M_APPEND_OWN_CSTR:
         case M_APPEND_SELF: return ai && 2 * model[o.i].size() <= cap;
         case M_APPEND_CSTR:
         case M_APPEND_CHAR: return ai && model[o.i].size() + 2 <= cap;
@@ -528,6 +544,12 @@ struct StrSys : World {
         case M_TRIM_SELF: return strf("s%d = s%d.trim()", o.i, o.i);
         case M_UPPER_SELF: return strf("s%d = s%d.to_upper()", o.i, o.i);
         case M_CLEAR: return strf("s%d.clear()", o.i);
+        case M_ASSIGN_OWN_CSTR: return strf("s%d = s%d.c_str()", o.i, o.i);
+        case M_SET_OWN_TAIL: return strf("s%d.set(s%d.c_str() + size/2)", o.i, o.i);
+        case M_ASSIGN_OWN_HEAD_VIEW: return strf("s%d = s%d.view(0, size/2)", o.i, o.i);
+        case M_SET_OWN_TAIL_VIEW: return strf("s%d.set(s%d.view(size/2))", o.i, o.i);
+        case M_APPEND_OWN_CSTR: return strf("s%d += s%d.c_str()", o.i, o.i);
+        case M_SET_OWN_PTRLEN: return strf("s%d.set(s%d.c_str(), size/2)", o.i, o.i);
         }
         return "?";
     }
@@ -742,6 +764,43 @@ struct StrSys : World {
                 m.clear();
                 tag = "clear";
                 break;
+            case M_ASSIGN_OWN_CSTR:
+                LIB(*a = a->c_str());
+                tag = "assign(own c_str)";
+                break;
+            case M_SET_OWN_TAIL: {
+                size_t k = own_cut(m, m.size() / 2);
+                LIB(a->set(a->c_str() + k));
+                m = m.substr(k);
+                tag = "set(own c_str + k)";
+                break;
+            }
+            case M_ASSIGN_OWN_HEAD_VIEW: {
+                size_t k = own_cut(m, m.size() / 2);
+                LIB(*a = a->view(0, k));
+                m = m.substr(0, k);
+                tag = "assign(own view head)";
+                break;
+            }
+            case M_SET_OWN_TAIL_VIEW: {
+                size_t k = own_cut(m, m.size() / 2);
+                LIB(a->set(a->view(k)));
+                m = m.substr(k);
+                tag = "set(own view tail)";
+                break;
+            }
+            case M_APPEND_OWN_CSTR:
+                LIB(*a += a->c_str());
+                m += std::string(m);
+                tag = "append(own c_str)";
+                break;
+            case M_SET_OWN_PTRLEN: {
+                size_t k = own_cut(m, m.size() / 2);
+                LIB(a->set(a->c_str(), k));
+                m = m.substr(0, k);
+                tag = "set(own c_str, n)";
+                break;
+            }
             }
         });
         if (moved >= 0) {
